@@ -77,16 +77,24 @@ impl PoeticNumberLiteralTemplate {
     }
 }
 
-fn numeric_suggestion_payload(var: &impl Render, val: NumericConstant) -> String {
-    format!(
-        "{} is {}",
-        var.render(),
-        PoeticNumberLiteralTemplate::from_value(val).as_text()
-    )
+// negative and non-finite numbers have no poetic spelling
+fn has_poetic_spelling(val: NumericConstant) -> bool {
+    val.value.is_finite() && val.value.is_sign_positive()
 }
 
-fn string_suggestion_payload(var: &impl Render, val: &StringConstant) -> String {
-    format!("{} says {}", var.render(), val.value)
+fn numeric_suggestion_payload(var: &impl Render, val: NumericConstant) -> Option<String> {
+    has_poetic_spelling(val).then(|| {
+        format!(
+            "{} is {}",
+            var.render(),
+            PoeticNumberLiteralTemplate::from_value(val).as_text()
+        )
+    })
+}
+
+// a poetic string literal ends at the line break, so it cannot contain one
+fn string_suggestion_payload(var: &impl Render, val: &StringConstant) -> Option<String> {
+    (!val.value.contains('\n')).then(|| format!("{} says {}", var.render(), val.value))
 }
 
 fn suggestion_text(payload: &str) -> String {
@@ -95,19 +103,19 @@ fn suggestion_text(payload: &str) -> String {
 
 fn build_diag<Constant: Display>(
     var: &impl Render,
-    suggestion: &str,
+    suggestion: Option<String>,
     val: Constant,
     line: u32,
 ) -> DiagsBuilder {
     DiagsBuilder::One(Diag {
         issue: issue_text(var, &val),
-        suggestions: vec![suggestion_text(suggestion)],
+        suggestions: suggestion.iter().map(|s| suggestion_text(s)).collect(),
         line,
     })
 }
 
 fn build_numeric_diag(var: &impl Render, val: NumericConstant, line: u32) -> DiagsBuilder {
-    build_diag(var, &numeric_suggestion_payload(var, val), val, line)
+    build_diag(var, numeric_suggestion_payload(var, val), val, line)
 }
 
 fn maybe_build_string_diag(
@@ -115,16 +123,18 @@ fn maybe_build_string_diag(
     val: Option<StringConstant>,
     line: u32,
 ) -> DiagsBuilder {
-    val.map(|val| build_diag(var, &string_suggestion_payload(var, &val), val, line))
+    val.map(|val| build_diag(var, string_suggestion_payload(var, &val), val, line))
         .unwrap_or_default()
 }
 
-fn array_push_suggestion_payload(var: &impl Render, val: NumericConstant) -> String {
-    format!(
-        "Rock {} like {}",
-        var.render(),
-        PoeticNumberLiteralTemplate::from_value(val).as_text()
-    )
+fn array_push_suggestion_payload(var: &impl Render, val: NumericConstant) -> Option<String> {
+    has_poetic_spelling(val).then(|| {
+        format!(
+            "Rock {} like {}",
+            var.render(),
+            PoeticNumberLiteralTemplate::from_value(val).as_text()
+        )
+    })
 }
 
 fn maybe_build_numeric_array_push_diag(
@@ -132,7 +142,7 @@ fn maybe_build_numeric_array_push_diag(
     val: Option<NumericConstant>,
     line: u32,
 ) -> DiagsBuilder {
-    val.map(|val| build_diag(var, &array_push_suggestion_payload(var, val), val, line))
+    val.map(|val| build_diag(var, array_push_suggestion_payload(var, val), val, line))
         .unwrap_or_default()
 }
 
